@@ -8,7 +8,8 @@ use serde::{Deserialize, Serialize};
 #[derive(Clone, Debug, PartialEq, Eq, Hash, Serialize, Deserialize)]
 pub struct BSpec {
     pub len: usize,
-    /// 0 random, 1 zeros, 2 0xff, 3 ascii, 4 "copy of the previous message", 5 "copy of an earlier message" (in vectors)
+    /// 0 random, 1 zeros, 2 0xff, 3 ascii, 4 "copy of the previous message", 5 "copy of an earlier message",
+    /// 6 "an earlier message with exactly one octet changed" (4..6 in vectors only)
     pub class: u8,
     pub seed: u32,
 }
@@ -111,6 +112,17 @@ impl MsgVec {
                 // copy of an arbitrary earlier message: patterns such as [a, a, b, c, b]
                 let prev = out[(it.seed as usize) % i].clone();
                 out.push(prev);
+            } else if it.class == 6 && i > 0 {
+                // near-copy: same length, one octet (anywhere) differs - two messages a partial comparison or a
+                // sampled fingerprint cannot tell apart
+                let mut m = out[(it.seed as usize) % i].clone();
+                if m.is_empty() {
+                    m.push(1);
+                } else {
+                    let p = ((it.seed >> 8) as usize) % m.len();
+                    m[p] ^= 1 << (it.seed >> 29);
+                }
+                out.push(m);
             } else {
                 out.push(it.bytes());
             }
@@ -128,7 +140,7 @@ pub fn msg_vec(
 ) -> impl Strategy<Value = MsgVec> {
     prop::sample::select(counts)
         .prop_flat_map(move |l| {
-            prop::collection::vec(bspec_from(lens, &[0, 0, 0, 0, 1, 2, 3, 4, 5, 5]), l..=l)
+            prop::collection::vec(bspec_from(lens, &[0, 0, 0, 0, 1, 2, 3, 4, 5, 5, 6, 6]), l..=l)
         })
         .prop_map(|items| MsgVec { items })
 }
@@ -138,7 +150,7 @@ pub fn msg_vec_range(
     hi: usize,
     lens: &'static [usize],
 ) -> impl Strategy<Value = MsgVec> {
-    prop::collection::vec(bspec_from(lens, &[0, 0, 0, 0, 1, 2, 3, 4, 5, 5]), lo..=hi)
+    prop::collection::vec(bspec_from(lens, &[0, 0, 0, 0, 1, 2, 3, 4, 5, 5, 6]), lo..=hi)
         .prop_map(|items| MsgVec { items })
 }
 
